@@ -140,6 +140,21 @@ def run_property(pid, tier, module, seed=0):
     from . import loader
     jobs = module.jobs(tier)
     results = run_jobs(jobs)
+    # load-independence: a job that left something undecided is run once more on a quiet machine (<= 4 workers);
+    # a 'proved'/'refuted' answer never depends on the budget, only 'undecided' can, so only those are retried
+    retry = [i for i, r in enumerate(results) if any(o["status"] == "undecided" for o in r["obs"])]
+    retried = 0
+    if retry and os.environ.get("GVC_NO_RETRY") != "1":
+        again = run_jobs([jobs[i] for i in retry], workers=4)
+        for i, r in zip(retry, again):
+            n0 = sum(o["status"] == "undecided" for o in results[i]["obs"])
+            n1 = sum(o["status"] in ("undecided", "error") for o in r["obs"])
+            if n1 < n0:
+                r["seconds"] += results[i]["seconds"]
+                r["solver_s"] += results[i]["solver_s"]
+                r["queries"] += results[i]["queries"]
+                results[i] = r
+                retried += 1
     obs = [o for r in results for o in r["obs"]]
     known = load_known()
     counted = [o for o in obs if o["kind"] in KINDS_COUNTED]
@@ -249,6 +264,7 @@ def run_property(pid, tier, module, seed=0):
         "backends": {"z3 " + _z3v(): sum(r["queries"] for r in results)},
         "solver_seconds": round(sum(r["solver_s"] for r in results), 2),
         "solver_unknowns": sum(r["unknowns"] for r in results),
+        "jobs_retried_on_quiet_machine": retried,
         "functions_under_contract": module.FUNCTIONS,
         "trusted_base": module.TRUSTED + [f"library contract model: {x}" for x in lib_used],
         "samples": samples,
